@@ -8,7 +8,7 @@ from harness import tlc
 
 LIN_CFG = '''SPECIFICATION LSpec
 CONSTANTS
-  Sess = {"A", "B", "C"}
+  Sess = {sess}
   Mbox = {"inbox", "b"}
   MaxId = 100000
   StoreFlags = {}
@@ -24,14 +24,18 @@ CHECK_DEADLOCK FALSE
 def _run(seed):
     from harness import concdriver
     try:
-        wins, stats = concdriver.execute(seed, nwin=6, p_fifo=0.5 if seed % 2 else 0.75)
+        # every fourth run has a fourth session (timed windows: slow destination, see concdriver copy_late)
+        sess = ("A", "B", "C", "D") if seed % 4 == 3 else ("A", "B", "C")
+        wins, stats = concdriver.execute(seed, nwin=6, sessions=sess, p_fifo=0.5 if seed % 2 else 0.75)
         return seed, wins, stats, None
     except BaseException:
         import traceback
         return seed, None, None, traceback.format_exc()[-1500:]
 
-def _lin(path):
-    r = tlc.run("LinStore", LIN_CFG, env={"TRACE_FILE": path}, workers=1, timeout=3000)
+def _lin(job):
+    path, nsess = job
+    sess = "{" + ", ".join(f'"{x}"' for x in "ABCD"[:nsess]) + "}"
+    r = tlc.run("LinStore", LIN_CFG.replace("{sess}", sess), env={"TRACE_FILE": path}, workers=1, timeout=3000)
     return {"rc": r.rc, "err": r.error if r.rc else None, "prints": r.prints, "gen": r.generated,
             "distinct": r.distinct, "cmd": r.cmd}
 
@@ -74,16 +78,24 @@ def fn(ck, a):
                 for c in w["cmds"].values():
                     ck.note_case((c["act"], c["uid"], c["status"], len(w["cmds"])))
         # 3. TLC searches a sequential explanation of every window
-        nchunk = 12
-        size = (len(wins) + nchunk - 1) // nchunk
+        # windows are grouped by their number of sessions (a constant of the specification)
+        order = sorted(range(len(wins)), key=lambda i: wins[i].get("nsess", 3))
+        wins = [wins[i] for i in order]
+        origin = [origin[i] for i in order]
         paths, offs = [], []
-        for k in range(nchunk):
-            part = wins[k * size:(k + 1) * size]
-            if part:
-                p = os.path.join(tmp, f"w{k}.json")
-                json.dump(part, open(p, "w"))
-                paths.append(p)
-                offs.append(k * size)
+        for ns in (3, 4):
+            idx = [i for i, w_ in enumerate(wins) if w_.get("nsess", 3) == ns]
+            if not idx:
+                continue
+            nchunk = 9 if ns == 3 else 4
+            size = (len(idx) + nchunk - 1) // nchunk
+            for k in range(nchunk):
+                part = idx[k * size:(k + 1) * size]
+                if part:
+                    p = os.path.join(tmp, f"w{ns}_{k}.json")
+                    json.dump([wins[i] for i in part], open(p, "w"))
+                    paths.append((p, ns))
+                    offs.append(part[0])
         with mp.get_context("fork").Pool(len(paths)) as pool:
             outs = pool.map(_lin, paths)
         lin = set()
